@@ -18,6 +18,7 @@ FOUND_BY = {
     'F13': 'C09 L3-objective (tag ambiguity_refined_after_formulation)',
     'F14': 'C17 misuse-accepted (cross_st_cone)', 'F15': 'C17 misuse-accepted (cross_maxof)',
     'F16': 'C13 illegal-accepted (affine_int with per-entry type string)',
+    'F17': 'C09 L3-objective (tag set_attached_after_st)', 'F18': 'C17 misuse-accepted (cross_kldiv)',
 }
 
 LATER = {
